@@ -111,6 +111,54 @@ theorem familyAllowed_none (s : String) : familyAllowed s none = false := by
   unfold familyAllowed
   split <;> simp_all
 
+/-! statement audit: the three lists above are the WHOLE rows of the table (converse directions, for every string) -/
+
+/-- the settings that have a family list at all. -/
+theorem settingFamilies_some_iff (s : String) :
+    (settingFamilies s).isSome ↔ s ∈ ["p", "i", "f", "a", "b", "c", "t1", "t2"] := by
+  unfold settingFamilies
+  split <;> simp_all
+
+private theorem familyAllowed_cases (s : String) (f : Family) (h : familyAllowed s (some f) = true) :
+    (s = "p") ∨ (s = "i" ∧ [Family.orthorhombic, .tetragonal, .cubic].contains f = true) ∨
+    (s = "f" ∧ [Family.orthorhombic, .cubic].contains f = true) ∨
+    ((s = "a" ∨ s = "b" ∨ s = "c") ∧ [Family.monoclinic, .orthorhombic].contains f = true) ∨
+    ((s = "t1" ∨ s = "t2") ∧ [Family.hexagonal].contains f = true) := by
+  by_cases h1 : s = "p"; · exact Or.inl h1
+  by_cases h2 : s = "i"; · subst h2; right; left; exact ⟨rfl, h⟩
+  by_cases h3 : s = "f"; · subst h3; right; right; left; exact ⟨rfl, h⟩
+  by_cases h4 : s = "a"; · subst h4; right; right; right; left; exact ⟨Or.inl rfl, h⟩
+  by_cases h5 : s = "b"; · subst h5; right; right; right; left; exact ⟨Or.inr (Or.inl rfl), h⟩
+  by_cases h6 : s = "c"; · subst h6; right; right; right; left; exact ⟨Or.inr (Or.inr rfl), h⟩
+  by_cases h7 : s = "t1"; · subst h7; right; right; right; right; exact ⟨Or.inl rfl, h⟩
+  by_cases h8 : s = "t2"; · subst h8; right; right; right; right; exact ⟨Or.inr rfl, h⟩
+  exfalso
+  have : settingFamilies s = none := by
+    unfold settingFamilies
+    split <;> simp_all
+  simp [familyAllowed, this] at h
+
+theorem familyAllowed_orthorhombic_iff (s : String) :
+    familyAllowed s (some .orthorhombic) = true ↔ s ∈ ["p", "i", "f", "a", "b", "c"] := by
+  constructor
+  · intro h
+    rcases familyAllowed_cases s _ h with h | ⟨h, _⟩ | ⟨h, _⟩ | ⟨h | h | h, _⟩ | ⟨_, hc⟩ <;> first | (subst h; decide) | (exact absurd hc (by decide))
+  · exact familyAllowed_orthorhombic s
+
+theorem familyAllowed_monoclinic_iff (s : String) :
+    familyAllowed s (some .monoclinic) = true ↔ s ∈ ["p", "a", "b", "c"] := by
+  constructor
+  · intro h
+    rcases familyAllowed_cases s _ h with h | ⟨_, hc⟩ | ⟨_, hc⟩ | ⟨h | h | h, _⟩ | ⟨_, hc⟩ <;> first | (subst h; decide) | (exact absurd hc (by decide))
+  · exact familyAllowed_monoclinic s
+
+theorem familyAllowed_hexagonal_iff (s : String) :
+    familyAllowed s (some .hexagonal) = true ↔ s ∈ ["p", "t1", "t2"] := by
+  constructor
+  · intro h
+    rcases familyAllowed_cases s _ h with h | ⟨_, hc⟩ | ⟨_, hc⟩ | ⟨_, hc⟩ | ⟨h | h, _⟩ <;> first | (subst h; decide) | (exact absurd hc (by decide))
+  · exact familyAllowed_hexagonal s
+
 section
 variable {K : Type} [Field K] [LinearOrder K] [IsStrictOrderedRing K] [FloorRing K]
 
